@@ -412,6 +412,14 @@ def run(check, repo, tier):
     n += direction_rules(check, L)
     n += filter_rule(check, L, 7 if tier == "thorough" else 5)
     n += spline_rule(check, L)
+    # the points a path is made of reach the machine: parametric samples (the end sample included) and polyline points are
+    # each converted and emitted with move(), in both distance modes (rule R2 of C11, run with the real move() and the machine model)
+    check.rule("R6", "every parametric sample and every polyline point is emitted as one G1 move to that point, in both distance modes (rule R2 of C11)")
+    from .c11 import emission_equivalence
+    from .c13 import _Remap
+    rm = _Remap(check, {"R2": "R6"})
+    rm.floor = lambda cond, message: check.floor(cond, message.replace("C11.", "C10<-C11."))
+    n += emission_equivalence(rm, P)
     check.analysed = {"program": P.stats(), "abstract_paths": n, "shapes": ["arc", "circle", "helix", "thread", "spiral", "arc_radius", "spline"]}
     check.sample({"shape": "arc (clockwise)", "x(theta)": "o.x + c.x + hypot(c.x, c.y) * cos(start + (end - start [- 2*pi]) * theta)", "f(0)": "o", "f(1)": "t given hypot(start) = hypot(end)"})
     check.coverage["exhaustive"] = True
